@@ -979,8 +979,36 @@ fn write_golden(ctx: &Ctx) {
     }
 }
 
+/// 1024 consecutive seeds starting at `block * 1024`.
+fn check_ping_new(ctx: &Ctx, block: u32) -> CaseResult {
+    for k in 0..1024u64 {
+        let seed = (block as u64) * 1024 + k;
+        let mut rng = fastrand::Rng::with_seed(seed);
+        let p = Ping::new(&mut rng);
+        let (z, l) = (p.zeroes.len(), p.ponglen as usize);
+        let near = z + 16 >= Ping::MAX_PING_ZEROES as usize || l + 16 >= Ping::MAX_PONG_ZEROES as usize;
+        if near || k % 128 == 0 {
+            if near {
+                ctx.count("ping-new:near-boundary");
+                ctx.nontrivial(&seed);
+            }
+            let spec = MsgSpec::Ping { ponglen: p.ponglen, zeroes: z as u16 };
+            if let Err(f) = check_roundtrip(ctx, &spec) {
+                return fail(format!("ping-new:{}", f.sig), format!("Ping::new(fastrand seed {seed}) = ping with {z} zero bytes, ponglen {l}: {}", f.msg));
+            }
+            // a pong of the requested length must be constructible as well
+            ensure!(l <= Ping::MAX_PONG_ZEROES as usize, "ping-new:ponglen-above-limit", "Ping::new(seed {seed}) asks for a pong of {l} bytes");
+        }
+    }
+    ctx.count_n("ping-new:draws", 1024);
+    Ok(())
+}
+
 fn run(ctx: &Ctx) {
     write_golden(ctx);
+    if std::env::var("VERIF_GOLDEN_ONLY").is_ok() {
+        return;
+    }
     ctx.enumerate("boundary", boundary_specs().into_iter(), true, |s: &MsgSpec| check_roundtrip(ctx, s));
     // every boundary message, every way of dropping / cutting its tail by 1..=12 bytes
     ctx.enumerate(
@@ -991,7 +1019,31 @@ fn run(ctx: &Ctx) {
         true,
         |c: &MutantCase| check_mutant(ctx, c),
     );
+    // Messages built by the node's own randomised constructor (`Ping::new`, used for keep-alives):
+    // blocks of consecutive fastrand seeds; every drawn ping near a size boundary (and a sample of the
+    // others) goes through the same round-trip clause.
+    ctx.run("ping-new", any::<u32>(), ctx.cases(2_000, 40_000), |block: &u32| check_ping_new(ctx, *block));
     ctx.run("roundtrip", msg_strategy(), ctx.cases(20_000, 400_000), |s: &MsgSpec| check_roundtrip(ctx, s));
     ctx.run("mutants", mutant_case(), ctx.cases(100_000, 2_000_000), |c: &MutantCase| check_mutant(ctx, c));
     ctx.run("raw", raw_case(), ctx.cases(40_000, 800_000), |c: &RawCase| check_raw(ctx, c));
+}
+
+// ---------------------------------------------------------------------------
+// Entry point for the coverage-guided target (/verif/fuzz, target `wire_message`)
+// ---------------------------------------------------------------------------
+
+thread_local! {
+    static FUZZ_CTX: Ctx = Ctx::new("C15", Tier::Thorough, 0, 0, 1);
+}
+
+/// One libFuzzer iteration: clause 2 (bytes that decode re-encode to themselves and round-trip) on
+/// arbitrary bytes, plus "decoding never panics". Panics (= libFuzzer crash) with the violation signature.
+pub fn fuzz_one(data: &[u8]) {
+    FUZZ_CTX.with(|ctx| {
+        if let Err(f) = check_bytes(ctx, "fuzz", data, None) {
+            if !ctx.is_known(&f.sig) {
+                panic!("VIOLATION property=C15 signature={} {}", f.sig, f.msg);
+            }
+        }
+    });
 }
